@@ -57,6 +57,7 @@ type LogSpec struct {
 	Name   string `json:"name"`
 	Which  int    `json:"which"`
 	Off    int    `json:"off,omitempty"`
+	Fwd    int    `json:"fwd,omitempty"` // >0 (with Which<0): the entry's update index lies Fwd above the transaction's last index (imported / independently numbered reflog)
 	Del    bool   `json:"del,omitempty"`
 	Time   uint64 `json:"time,omitempty"`
 	TZ     int16  `json:"tz,omitempty"`
